@@ -39,6 +39,9 @@ def run(tier, seed):
     # the IANA COSE registry around the registered ids (ES384 -35, ES256K -47, ESP256/384/512 -9/-51/-52, Ed25519 -19, Ed448 -53, RS* variants ...): none of them
     # denotes a scheme the property lists
     algs += [a for a in (-35, -47, -19, -51, -52, -53, -9, -10, -40, -41, -42, -260, -261, -262, -65534, -65533, 1, 3, -6, -34) if a not in algs]
+    # ... and every id within 8 of a registered one (arithmetic on the registered ids - offsets, negative indices, off-by-one tables - lands there)
+    algs += [a + d for a in SPEC for d in range(-8, 9) if a + d not in algs and a + d not in SPEC]
+    algs = list(dict.fromkeys(algs))
     keys = [("P-256", "ES256-P256", False), ("P-384", "ES256-P384", False), ("P-521", "ES256-P521", False), ("raw65", "ES256-P256", True),
             ("RSA", "RS256", False), ("Ed25519", "EdDSA", False)]
     nkeys = 1 if quick else 6
@@ -194,6 +197,40 @@ def run(tier, seed):
         B.run_case(impl.AuthPolicy(pol0.challenge, pol0.rp_id, pol0.origin, raw, pol0.count, False), a, "record", "accept", f"raw key x-prefix {prefix.hex()}")
     c = authsim.Cred("EdDSA")
     check_decode(c.cose_bytes, c.pk, "ed25519")
+    # the exported verify_signature on data of every length, in particular lengths that equal a digest size: the data is the MESSAGE - a signature over M
+    # verifies for M and for nothing else (not for H(M), not for M with a byte appended), whatever M's length
+    from webauthn.helpers.verify_signature import verify_signature
+    from cryptography.exceptions import InvalidSignature
+    def vs(pk, alg, sig, data):
+        try:
+            verify_signature(public_key=pk, signature_alg=alg, signature=sig, data=data)
+            return "verified"
+        except InvalidSignature:
+            return "invalid"
+        except Exception as e:
+            return "ERR " + fw.classify_exc(e)
+    for kind in ("ES256-P256", "ES512-P521", "RS256", "RS1", "PS256", "PS384", "PS512", "RS384", "RS512", "EdDSA"):
+        if kind not in authsim.KINDS:
+            continue
+        cr = authsim.Cred(kind)
+        for L in (0, 1, 19, 20, 21, 28, 31, 32, 33, 47, 48, 49, 63, 64, 65, 100, 1000):
+            M = bytes((i * 37 + L) % 256 for i in range(L))
+            sig = cr.sign(M)
+            digests = [hashlib.new(h, M).digest() for h in ("sha1", "sha256", "sha384", "sha512")]
+            chk.evals += 1
+            got = vs(cr.pk, cr.alg, sig, M)
+            if got != "verified":
+                chk.violation(f"verify_signature refuses a genuine {kind} signature over a {L}-byte message: {got}", f"verify-signature genuine {kind} len={L}", {"entry": "verify_signature", "kind": kind, "alg": cr.alg, "message_hex": M.hex(), "signature_hex": sig.hex(), "outcome": got})
+            for what, other in [("H(M) " + str(len(d)), d) for d in digests] + [("M + 00", M + b"\x00"), ("M without its last byte", M[:-1])] + ([("digest-sized other message", bytes(len(M)))] if L in (20, 32, 48, 64) and M != bytes(len(M)) else []):
+                if other == M:
+                    continue
+                chk.evals += 1
+                got = vs(cr.pk, cr.alg, sig, other)
+                if got == "verified":
+                    chk.violation(f"verify_signature accepts a {kind} signature made over M ({L} bytes) for other data ({what})", f"verify-signature other-data {kind} {what.split()[0]} len={L}",
+                                  {"entry": "verify_signature", "kind": kind, "alg": cr.alg, "signed_message_hex": M.hex(), "presented_data_hex": other.hex(), "signature_hex": sig.hex()})
+            # ... and a signature made over the digest (as a caller holding only the digest would produce with a pre-hashed API) is no signature over M
+            chk.seen(("verify-signature", kind, L))
     B.close()
     fw.env_invariance(chk, "auth", "reg")          # the same seeded cases under -O / -OO, warnings-as-errors, other TZ / locale, a private CA bundle
     return fw.finish(chk, ob, br, TRUSTED,
